@@ -228,8 +228,22 @@ def run(ctx):
     names = set()
     for n in orn:
         names |= {(x.get("referencedDecl") or {}).get("name") for x in C.walk(n)} - {None}
-    if {"ioclass", "iodata"} <= names:
-        ctx.ok("C18.R2", "pack", sample="(ioclass << 13) | iodata")
+    parsed = []
+    for n in C.walk(s):
+        if n.get("kind") == "CallExpr" and C.callee(n) == "PyArg_ParseTuple":
+            for a in C.call_args(n)[2:]:
+                core = C.strip_all(a)
+                if core.get("kind") == "UnaryOperator" and core.get("opcode") == "&":
+                    parsed.append((C.strip_all(C.kids(core)[0]).get("referencedDecl") or {})
+                                  .get("name"))
+    shifted = set()
+    for n in shl:
+        shifted |= {(x.get("referencedDecl") or {}).get("name")
+                    for x in C.walk(C.kids(n)[0])} - {None}
+    # Python passes (pid, ioclass, value): the 2nd parsed argument is the class
+    if len(parsed) == 3 and parsed[1] in shifted and parsed[2] not in shifted \
+            and {parsed[1], parsed[2]} <= names:
+        ctx.ok("C18.R2", "pack", sample=f"({parsed[1]} << 13) | {parsed[2]}")
     else:
         ctx.fail("C18.R2", "pack", s["_file"], s["_line"], s["name"],
                  f"packed value is built from {sorted(names)}")
